@@ -11,8 +11,14 @@ From Pybtex Require Import Base.Prelude Base.PyChar Base.PyStr Model.Plugins Mod
 (* what a stream yields on read(): text (code points) or bytes *)
 Inductive stream := SText (t : str) | SBytes (b : str).
 
+(* reading a whole text file opened with the codec (an incremental decoder): the text, a
+   UnicodeDecodeError, or another exception ('utf-16' insists on a byte-order mark there:
+   UnicodeError "UTF-16 stream does not start with BOM") *)
+Inductive fdres := FText (t : str) | FDecodeError | FOtherError.
 (* a codec: None = UnicodeEncodeError / UnicodeDecodeError *)
-Record codec := { enc : str -> option str; dec : str -> option str }.
+Record codec := { enc : str -> option str; dec : str -> option str; fdec : str -> fdres }.
+Definition fdec_of_dec (dec : str -> option str) (b : str) : fdres :=
+  match dec b with Some t => FText t | None => FDecodeError end.
 
 (* universal newlines of a text file opened for reading with newline=None:
    "\r\n" and "\r" become "\n" *)
@@ -53,9 +59,10 @@ Section Reader.
     | FOpenCrash => Crash
     | FOpened content =>
       if unicode_io then
-        match dec cd content with
-        | None => PyErr cls_pybtex (-1)
-        | Some t => ps (SText (universal_newlines t)) data
+        match fdec cd content with
+        | FDecodeError => PyErr cls_pybtex (-1)
+        | FOtherError => Crash
+        | FText t => ps (SText (universal_newlines t)) data
         end
       else ps (SBytes content) data
     end.
@@ -92,14 +99,16 @@ Inductive wdst :=
 
 Section Writer.
   Variable wd : Type.
-  (* the plug-in's write_stream(bib_data, stream): what it writes to a text (true) or
-     binary (false) stream *)
-  Variable ws : bool -> wd -> res str.
+  (* the plug-in's write_stream(bib_data, stream): the chunks it passes to stream.write, in
+     order, for a text (true) or binary (false) stream.  The chunks matter: a text file that
+     is never written to stays empty, while encoding the empty document may yield a
+     byte-order mark. *)
+  Variable ws : bool -> wd -> res (list str).
   Variable cd : codec.
   Variable unicode_io : bool.
 
-  (* output/__init__.py:47-50 _to_string_or_bytes *)
-  Definition to_string_or_bytes (d : wd) : res str := ws unicode_io d.
+  (* output/__init__.py:47-50 _to_string_or_bytes: io.StringIO / io.BytesIO .getvalue() *)
+  Definition to_string_or_bytes (d : wd) : res str := do cs <- ws unicode_io d; Ok (concat cs).
   (* output/__init__.py:52-54 to_string *)
   Definition to_string (d : wd) : res str :=
     do r <- to_string_or_bytes d;
@@ -111,26 +120,34 @@ Section Writer.
     if unicode_io then match enc cd r with Some b => Ok b | None => Crash end
     else Ok r.
 
+  (* what a text file opened with self.encoding contains after the chunks were written:
+     io.TextIOWrapper encodes incrementally (a byte-order mark once, with the first write,
+     even of an empty string); without any write nothing reaches the file *)
+  Definition text_file_bytes (cs : list str) : option str :=
+    match cs with
+    | [] => Some []
+    | _ => enc cd (concat cs)
+    end.
+
   (* output/__init__.py:36-42 write_file: (return value, bytes or text that reached the
-     destination).  A caller's stream has getvalue(): its content is returned.  A text file
-     encodes what is written with self.encoding (newline translation is the identity on
-     POSIX). *)
+     destination).  A caller's stream has getvalue(): its content is returned.  (Newline
+     translation of a text file is the identity on POSIX.) *)
   Definition write_file (d : wd) (dst : wdst) : res (option stream * option stream) :=
     match dst with
     | WOpenErr => PyErr cls_pybtex (-1)
     | WOpenCrash => Crash
     | WStream text =>
-      do r <- ws text d;
-      let s := if text then SText r else SBytes r in
+      do cs <- ws text d;
+      let s := if text then SText (concat cs) else SBytes (concat cs) in
       Ok (Some s, Some s)
     | WOpened =>
-      do r <- ws unicode_io d;
+      do cs <- ws unicode_io d;
       if unicode_io then
-        match enc cd r with
+        match text_file_bytes cs with
         | Some b => Ok (None, Some (SBytes b))
         | None => Crash
         end
-      else Ok (None, Some (SBytes r))
+      else Ok (None, Some (SBytes (concat cs)))
     end.
 End Writer.
 
@@ -138,7 +155,7 @@ End Writer.
 Record plugin (db : Type) := {
   p_unicode : bool;
   p_ps : stream -> db -> res db;
-  p_ws : bool -> db -> res str
+  p_ws : bool -> db -> res (list str)
 }.
 Arguments p_unicode {db}. Arguments p_ps {db}. Arguments p_ws {db}.
 
@@ -187,10 +204,12 @@ End Module.
 Definition all_below (n : N) (s : str) : bool := forallb (fun c => N.ltb c n) s.
 Definition codec_latin1 : codec :=
   {| enc := fun s => if all_below 256 s then Some s else None;
-     dec := fun b => Some b |}.
+     dec := fun b => Some b;
+     fdec := fun b => FText b |}.
 Definition codec_ascii : codec :=
   {| enc := fun s => if all_below 128 s then Some s else None;
-     dec := fun b => if all_below 128 b then Some b else None |}.
+     dec := fun b => if all_below 128 b then Some b else None;
+     fdec := fdec_of_dec (fun b => if all_below 128 b then Some b else None) |}.
 
 Definition utf8_enc_char (c : N) : option str :=
   if N.ltb c 128 then Some [c]
@@ -246,10 +265,70 @@ Fixpoint utf8_dec_aux (fuel : nat) (b : str) : option str :=
     end
   end.
 Definition codec_utf8 : codec :=
-  {| enc := utf8_enc; dec := fun b => utf8_dec_aux (length b) b |}.
+  {| enc := utf8_enc; dec := fun b => utf8_dec_aux (length b) b;
+     fdec := fdec_of_dec (fun b => utf8_dec_aux (length b) b) |}.
+(* 'utf-16': encoding writes a byte-order mark and little-endian units; decoding honours a
+   byte-order mark (little-endian without one); lone surrogates are errors both ways *)
+Definition is_surrogate (c : N) : bool := N.leb 55296 c && N.leb c 57343.
+Definition u16_units (c : N) : option (list N) :=
+  if N.ltb c 65536 then (if is_surrogate c then None else Some [c])
+  else if N.ltb c 1114112 then Some [55296 + (c - 65536) / 1024; 56320 + (c - 65536) mod 1024]%N
+  else None.
+Fixpoint u16_enc_body (s : str) : option str :=
+  match s with
+  | [] => Some []
+  | c :: t => match u16_units c, u16_enc_body t with
+              | Some us, Some b => Some (concat (map (fun u => [u mod 256; u / 256]%N) us) ++ b)
+              | _, _ => None
+              end
+  end.
+Definition utf16_enc (s : str) : option str := option_map (fun b => 255%N :: 254%N :: b) (u16_enc_body s).
+Fixpoint u16_pairs (be : bool) (b : str) : option (list N) :=
+  match b with
+  | [] => Some []
+  | [_] => None
+  | x :: y :: t => option_map (cons (if be then x * 256 + y else y * 256 + x)%N) (u16_pairs be t)
+  end.
+Fixpoint u16_dec_units (us : list N) : option str :=
+  match us with
+  | [] => Some []
+  | u :: t =>
+    if N.leb 55296 u && N.leb u 56319 then
+      match t with
+      | v :: t' => if N.leb 56320 v && N.leb v 57343
+                   then option_map (cons (65536 + (u - 55296) * 1024 + (v - 56320))%N) (u16_dec_units t')
+                   else None
+      | [] => None
+      end
+    else if is_surrogate u then None
+    else option_map (cons u) (u16_dec_units t)
+  end.
+Definition utf16_dec (b : str) : option str :=
+  let '(be, body) := match b with
+                     | 255%N :: 254%N :: t => (false, t)
+                     | 254%N :: 255%N :: t => (true, t)
+                     | _ => (false, b)
+                     end in
+  match u16_pairs be body with
+  | Some us => u16_dec_units us
+  | None => None
+  end.
+(* a 'utf-16' text file read in one go (stream.read(): one final call of the incremental
+   decoder, encodings/utf_16.py): the data are decoded first -- invalid or truncated data are
+   a UnicodeDecodeError -- and if that consumed something without finding a byte-order mark
+   the decoder raises UnicodeError("UTF-16 stream does not start with BOM") *)
+Definition utf16_fdec (b : str) : fdres :=
+  match b with
+  | 255%N :: 254%N :: _ => fdec_of_dec utf16_dec b
+  | 254%N :: 255%N :: _ => fdec_of_dec utf16_dec b
+  | [] => FText []
+  | _ => match utf16_dec b with None => FDecodeError | Some _ => FOtherError end
+  end.
+Definition codec_utf16 : codec := {| enc := utf16_enc; dec := utf16_dec; fdec := utf16_fdec |}.
 Definition codec_of (n : N) : codec :=
   match n with
   | 0%N => codec_utf8
   | 1%N => codec_latin1
+  | 3%N => codec_utf16
   | _ => codec_ascii
   end.
